@@ -227,7 +227,15 @@ class _FaultSolver:
         o = self.outer
         o.n_solve += 1
         if o.n_solve in o.fail_solve:
-            o.fired.append(("solve", o.n_solve))
+            import sys
+
+            f, in_est = sys._getframe(1), False
+            while f is not None:
+                if f.f_code.co_name == "estimate_rcond":
+                    in_est = True
+                    break
+                f = f.f_back
+            o.fired.append(("solve@estimator" if in_est else "solve", o.n_solve))
             raise LinearSolverError("injected solve failure")
         if trans:
             o.n_trans += 1
@@ -287,7 +295,7 @@ def run_solve(problem, params, x0, y0=None, solver_cls=RecSolver, clock=None, lo
             c.__enter__()
         try:
             with np.errstate(all="ignore"):
-                rec.result = solver.solve(x0 if isinstance(x0, np.ndarray) else np.array(x0, dtype=float),
+                rec.result = solver.solve(None if x0 is None else (x0 if isinstance(x0, np.ndarray) else np.array(x0, dtype=float)),
                                           None if y0 is None else (y0 if isinstance(y0, np.ndarray) else np.array(y0, dtype=float)))
         except Exception as e:  # noqa
             rec.exc = exc_info(e)
